@@ -15,8 +15,11 @@ from .modes import _node_calls
 
 
 def _is_type_call(c: ast.Call) -> bool:
+    """`self._type_(…)`, or the same through a helper that is handed `self._type_` as the callable"""
     f = c.func
-    return isinstance(f, ast.Attribute) and f.attr == "_type_" and isinstance(f.value, ast.Name) and f.value.id == "self"
+    if isinstance(f, ast.Attribute) and f.attr == "_type_" and isinstance(f.value, ast.Name) and f.value.id == "self":
+        return True
+    return isinstance(f, ast.Attribute) and isinstance(f.value, ast.Name) and f.value.id == "self" and bool(c.args) and unparse(c.args[0]) == "self._type_"
 
 
 def rule_infer_thread(db: ProgramDB) -> List[Instance]:
